@@ -152,6 +152,14 @@ def einsum(expr, *args, **kwargs):
     expr2, args, size_map = remove_size1(expr, *args, extra=extra)
     final_shape = [size_map[i] for i in final_idx]
     base_order = ordered_indices(expr2, shapes)
+    # ordered_indices may give two indices the same position; break ties by name
+    # so that every later sort of the indices agrees
+    base_order = {
+        k: i
+        for i, k in enumerate(
+            sorted(base_order, key=lambda x: (base_order[x], x))
+        )
+    }
     ein_s = expr2.split("->")
     final_index = ein_s[1]
     idxs = ein_s[0].split(",")
